@@ -4169,7 +4169,7 @@ def bundle_no_assertion_trips(P, R, L):
     """conditions whose violation trips an always-on assertion on the compaction thread (which then never clears the
     scheduled flag: every waiter hangs)"""
     R.clause("NOPANIC", "compaction-thread assertion bundle: PAIR-9 (parent inputs cover the boundary-expanded range), GRD-16 (trivial move), ROLE-5 "
-             "(version builder order), GRD-14 (non-empty manual inputs), PAIR-10 (closed builder removed), ORD-17 (manual slot), GRD-22 (flush inside a compaction), PAIR-14 (input expansion)")
+             "(version builder order), GRD-14 (non-empty manual inputs), PAIR-10 (closed builder removed), ORD-17 (manual slot), GRD-22 (flush inside a compaction), PAIR-14 (input expansion), GRD-23 (read sampling threshold)")
     R.once(pair9_boundary_inputs, P, R, L)
     R.once(pair9_levels, P, R, L)
     R.once(grd16_trivial_move, P, R, L)
@@ -4179,6 +4179,7 @@ def bundle_no_assertion_trips(P, R, L):
     R.once(ord17_manual_slot, P, R, L)
     R.once(grd22_flush_during_compaction, P, R, L)
     R.once(pair14_input_expansion, P, R, L)
+    R.once(grd23_read_sample_threshold, P, R, L)
 
 
 # ------------------------------------------------------------------------------------------- GRD-20 a database is created only when none exists
@@ -4546,3 +4547,33 @@ def pair15_charge_same_version(P, R, L, rule="PAIR-15"):
             det.append("line %s: update_stats is applied to a version loaded at bb%s, the lookup used the one loaded at bb%s" % (c.line, sorted(sites), sorted(handed)))
     R.check(rule, GET + "|charge-applied-to-the-version-that-was-read", ok, where(b),
             "update_stats is called on the version handle the lookup ran against", "; ".join(det) or "version loaded at bb%s" % sorted(handed))
+
+
+# ------------------------------------------------------------------------------------------- GRD-23 read sampling charges only keys held by >= 2 files
+def grd23_read_sample_threshold(P, R, L, rule="GRD-23"):
+    """Version::record_read_sample charges a file only when at least TWO files hold the sampled key. Charging the only
+    home of a key makes seek compactions (trivial moves) walk that file down to the last level, where picking the next
+    one trips `assert!(level + 1 < MAX_NUM_LEVELS)` on the compaction thread."""
+    fn = "versioning::version::Version::record_read_sample"
+    b = P.body(fn)
+    if b is None:
+        return R.missing_anchor(rule, fn)
+    R.analysed(b)
+    us = [c for c in b.calls() if not b.is_cleanup(c.bb) and c.name == "versioning::version::Version::update_stats"]
+    edges = []
+    for c in comparisons(b):
+        lo, ro = c.lhs_origins(), c.rhs_origins()
+        pure = lambda os_: [o.name for o in os_] if os_ and all(o.kind == "const" for o in os_) else None
+        lc, rc = pure(lo) or [], pure(ro) or []
+        # count >= 2, count > 1, 2 <= count, 1 < count (and the negated forms on their false edges)
+        if rc in (["2"],) and not lc:
+            edges += [(c.bb, t) for t in (c.true_t if c.op == "ge" else c.false_t if c.op == "lt" else [])]
+        if rc in (["1"],) and not lc:
+            edges += [(c.bb, t) for t in (c.true_t if c.op == "gt" else c.false_t if c.op == "le" else [])]
+        if lc in (["2"],) and not rc:
+            edges += [(c.bb, t) for t in (c.true_t if c.op == "le" else c.false_t if c.op == "gt" else [])]
+        if lc in (["1"],) and not rc:
+            edges += [(c.bb, t) for t in (c.true_t if c.op == "lt" else c.false_t if c.op == "ge" else [])]
+    ok = bool(us) and bool(edges) and all(b.must_pass(c.bb, through_edges=edges) for c in us)
+    R.check(rule, fn + "|charge-only-with-two-or-more-files", ok, where(b),
+            "update_stats is reached only over the edge `files holding the key >= 2`", "update_stats sites %d, threshold edges %d" % (len(us), len(edges)))
